@@ -289,12 +289,30 @@ static void case_constant(Rng& rng, uint64_t index)
 	Call C = gen_call(rng, 0, (int) (index % 3), 1 + (int) ((index / 3) % 6));
 	if(rng.coin(0.4))
 		C.F.c = rng.mag(1e-12, 1e12), C.F.mean = C.F.c, C.F.m2 = (ld) C.F.c * C.F.c;
+	// the zero function and constants whose square underflows (defect D29: Vegas' grid refinement turned NaN and the routine exited)
+	bool degenerate = index % 5 == 4;
+	if(degenerate)
+	{
+		C.F.c = (index % 10 == 4) ? 0.0 : rng.sign() * rng.loguni(1e-250, 1e-160);
+		C.F.mean = C.F.c, C.F.m2 = (ld) C.F.c * C.F.c;
+		for(int i = 0; i < C.R.dim; i++)
+			C.R.w[i] = rng.loguni(1e-2, 1e2);	// keep c V representable
+	}
 	set_params(call_json(C));
 	hash_call(C);
 	if(C.R.dim >= 2 && anisotropic(C.R))
 		mark_nontrivial();
 	Obs o = run_call(C);
 	judge_inside(C, o);
+	if(degenerate)
+	{
+		char cl[80];
+		snprintf(cl, sizeof cl, "%s-integrates-zero-and-tiny-constants", MC[C.method]);
+		ld exact = C.R.volume() * (ld) C.F.c;
+		double err = C.F.c == 0.0 ? std::fabs(o.result) : (double) (fabsl((ld) o.result - exact) / fabsl(exact));
+		judge(cl, std::isfinite(o.result) ? err : 1e300, C.F.c == 0.0 ? 0.0 : 1e-9, [&] { return J().d("result", o.result).d("exact", (double) exact); });
+		return;
+	}
 	judge_constant(C, o, false);
 }
 // recorded witnesses of finding D17 (Vegas, constant, |cV|/calls tiny): fixed inputs re-executed on every run
@@ -338,6 +356,15 @@ static void case_history(Rng& rng, uint64_t index)
 {
 	Call T = gen_call(rng, rng.irange(1, 3), (int) (index % 3));
 	T.ncall = std::min(T.ncall, 40000);
+	// narrow off-centre peaks: the integrand underflows to exactly 0 on one side of the midpoint in every dimension, which sends Miser into its
+	// fallback choice of the bisection direction (tick Miser.fallback_dimension) - the one place where it consults a process-wide static (defect D28)
+	bool narrow = false;
+	if(T.F.family == 2 && T.R.dim >= 2 && rng.coin(0.6))
+	{
+		narrow = true;
+		for(int i = 0; i < T.R.dim; i++)
+			T.F.q[i] = rng.uni(0.003, 0.02), T.F.p[i] = rng.coin() ? rng.uni(0.05, 0.12) : rng.uni(0.88, 0.95);
+	}
 	int nh	= rng.irange(1, 6);
 	std::vector<Call> H;
 	bool other_dim = false;
@@ -353,7 +380,7 @@ static void case_history(Rng& rng, uint64_t index)
 	}
 	set_params(call_json(T).i("history_length", nh));
 	hash_call(T);
-	if(other_dim)
+	if(other_dim || narrow)
 		mark_nontrivial();
 	// H2: inside the long-lived worker (whose statics have seen every earlier case of this shard)
 	Obs w1 = run_call(T);
